@@ -116,11 +116,13 @@ def search_fields(ev):
     return 'LS', ev[1], ev[2] == 3, ev[4], ev[5], ev[6], 0x31
 
 
-def new_rig():
+def new_rig(noisy=False):
     from checks.c13_rig import Rig
-    rig = Rig(with_search=True, share_tree=SHARES)
+    rig = Rig(with_search=True, share_tree=SHARES, noisy=noisy)
     from aioslsk.user.model import BlockingFlag
-    rig.settings.users.blocked = {u: BlockingFlag.SEARCHES for u in BLOCKED}
+    blocked = {u: BlockingFlag.SEARCHES for u in BLOCKED}
+    blocked['bob'] = BlockingFlag.PRIVATE_MESSAGES | BlockingFlag.UPLOADS      # blocked, but NOT for searches: still answered
+    rig.settings.users.blocked = blocked
     for a in ASKERS:
         rig.add_asker(a)
     return rig
@@ -147,8 +149,8 @@ def late_writes(rig):
     return {'conn': late, 'replies': reps} if (late or reps) else {}
 
 
-def run_impl(events):
-    rig = new_rig()
+def run_impl(events, noisy=False):
+    rig = new_rig(noisy)
     try:
         obs, closed = [], []
         for ev in events:
@@ -164,8 +166,8 @@ def run_impl(events):
         rig.close()
 
 
-def gen_and_run(rng, n, style):
-    rig = new_rig()
+def gen_and_run(rng, n, style, noisy=False):
+    rig = new_rig(noisy)
     events, obs, closed = [], [], []
     next_c = [1]
 
@@ -249,6 +251,8 @@ def gen_and_run(rng, n, style):
                 if x and x[0].get('closing') == src:
                     x = []
                 do(['LS', src, rng.choice([3, 3, 3, 4, 93]), rng.choice([0, 49]), u, t, q] + x)
+            elif r < 0.74:
+                do(['SET'])
             elif r < 0.80:
                 c = next_c[0]; next_c[0] += 1
                 do(['PI', c, rng.choice(c13.PEER_NAMES), rng.random() < 0.3])
@@ -520,9 +524,9 @@ WITNESS = {
 }
 
 
-def violations(events):
+def violations(events, noisy=False):
     try:
-        return monitor(events, run_impl(events))
+        return monitor(events, run_impl(events, noisy))
     except Exception as e:     # noqa
         return [('impl-exception', f'{type(e).__name__}: {e}', {})]
 
@@ -543,9 +547,9 @@ def _speakers_alive(events):
     return True
 
 
-def shrink_events(events, key):
+def shrink_events(events, key, noisy=False):
     def fails(evs):
-        return valid(evs) and any(k == key for k, _, _ in violations(evs))
+        return valid(evs) and any(k == key for k, _, _ in violations(evs, noisy))
     if not fails(events):
         return events
     return shrink_list(events, fails, max_steps=60)
@@ -571,12 +575,15 @@ def run(run: Run):
             run.add_finding(Finding(k, what, {'events': evs, 'detail': detail}))
 
     n_hist = 150 if run.tier == 'quick' else 700
+    if not proved:
+        n_hist = int(n_hist * 2.5)      # broken tie: longer directed search for a failing input
     styles = ['plain', 'own', 'faults', 'f10', 'access', 'cred', 'plain', 'session', 'nosess', 'faults', 'plain', 'own']
     cases = []
     for i in range(n_hist):
         style = styles[i % len(styles)]
         try:
-            events, obs = gen_and_run(run.rng, run.rng.randrange(2, 8 if run.tier == 'quick' else 12), style)
+            events, obs = gen_and_run(run.rng, run.rng.randrange(2, 8 if run.tier == 'quick' else 12), style, noisy=(i % 3 == 1))
+            noisy = (i % 3 == 1)
         except Exception as e:   # noqa
             run.add_broken('check-crashed:gen', f'{type(e).__name__}: {e}')
             continue
@@ -589,8 +596,8 @@ def run(run: Run):
                 run.count('answered' if o['replies'] else 'not_answered')
         cases.append((events, obs))
         for k, what, detail in monitor(events, obs):
-            small = shrink_events(events, k)
-            run.add_finding(Finding(k, what, {'events': small, 'detail': detail}))
+            small = shrink_events(events, k, noisy)
+            run.add_finding(Finding(k, what, {'events': small, 'noisy_listeners': noisy, 'detail': detail}))
 
     for variant in LATE_VARIANTS:
         run.case({'late_asker': variant}, kind='l3-late-asker')
@@ -638,7 +645,7 @@ def replay(rep) -> int:
             print('VIOLATED:', k, what, detail)
         return 1 if v else 0
     events = w['events'] if isinstance(w, dict) else w
-    obs = run_impl(events)
+    obs = run_impl(events, noisy=bool(isinstance(w, dict) and w.get('noisy_listeners')))
     for e, o in zip(events, obs):
         print(e, '->', {k: o[k] for k in ('parent', 'children', 'conn', 'replies', 'closed')}, o.get('oracle', ''))
     v = monitor(events, obs)
